@@ -803,7 +803,7 @@ int main(int argc, char **argv)
     TreeShards ts = tree_shards(th ? c16::params_thorough() : c16::params_quick());
     vr::run_sharded(ts.total(), [&](int shard, long long resume) { trees_shard(ts, shard, resume); });
   } else if (part == "mutations") {
-    const size_t B = maxbytes > 0 ? (size_t)maxbytes : th ? 60 : 36;
+    const size_t B = maxbytes > 0 ? (size_t)maxbytes : th ? 60 : 34;
     std::vector<BaseDoc> docs;
     {
       c16::Choices c;
